@@ -409,7 +409,7 @@ def run_crashpoints(ctx, v, only_k=None):
 
 def shard_main(ctx):
     from hypothesis import given
-    n = {"quick": 1500, "thorough": 25000}[ctx.tier]
+    n = {"quick": 2500, "thorough": 40000}[ctx.tier]
 
     @given(cases)
     def test(case):
